@@ -230,7 +230,7 @@ pub fn run(ctx: &Ctx) -> ! {
     hp.allow_mixed_providers = false;
     let spec = RunSpec {
         shards: 16,
-        cases_per_shard: ctx.tier.pick(60, 900),
+        cases_per_shard: ctx.tier.pick(60, 300),
         cfg_len: CFG_LEN,
         min_ops: 4,
         max_ops: ctx.tier.pick(28, 60),
